@@ -30,6 +30,13 @@ CLAUSES = [
     # equal mappings written in different key orders (anything memoised by value must keep each one's own order)
     case([node_file({"blue": {"cpu": 2, "memory": "4Gi", "n": {"x": 1, "y": 2}}, "green": {"memory": "4Gi", "cpu": 2, "n": {"y": 2, "x": 1}},
                      "l": [{"a": 1, "b": 2}, {"b": 2, "a": 1}], "near": [{"a": 1}, {"a": 1.0}, {"a": True}, {"a": "1"}]})]),
+    # node names ending in a YAML extension, class and application names starting with a marker character
+    case([{"path": "nodes/backup.yaml.yml", "content": {"parameters": G.enc({"who": "backup.yaml"})}},
+          {"path": "nodes/backup.yml", "content": {"parameters": G.enc({"who": "backup"})}},
+          {"path": "nodes/legacy.yml.yaml", "content": {"classes": ["=pinned"], "applications": ["=db", "web", "x~y"]}},
+          {"path": "classes/=pinned.yml", "content": {"applications": ["~none", "=db2"], "parameters": G.enc({"p": 1})}}]),
+    case([{"path": "nodes/formats/yml.yml", "content": {"applications": ["=a", "a"]}}, {"path": "nodes/formats/yaml.yaml", "content": {}},
+          {"path": "nodes/formats.yml", "content": {"applications": ["a"]}}], compose_node_name=True),
     # failures surface as ValueError
     case([node_file({"boom": "${no:such}"})]),
     case([node_file({}, classes=["missing"])]),
